@@ -73,9 +73,18 @@ func (d discipline) arg(b []byte, empty int, what string) ([]byte, func() error)
 }
 
 type macObj struct {
-	m zuc.EIA
-	d discipline
-	k macKey
+	m    zuc.EIA
+	d    discipline
+	k    macKey
+	keep keeper
+	nop  int
+}
+
+// after is called when a call on the object has returned: the slices of this
+// call are kept, and everything kept earlier must be unchanged.
+func (o *macObj) after(op string) error {
+	o.nop++
+	return o.keep.verify(fmt.Sprintf("during/after call %d (%s) on the same object", o.nop, op))
 }
 
 func newMACd(k macKey, d discipline) (*macObj, error) {
@@ -109,7 +118,9 @@ func newMACd(k macKey, d discipline) (*macObj, error) {
 	if err != nil {
 		return nil, fmt.Errorf("constructor of %s: %v", algNames[k.Alg], err)
 	}
-	return &macObj{m: m, d: d, k: k}, nil
+	o := &macObj{m: m, d: d, k: k}
+	o.keep.keep(kk, "the key slice", false)
+	return o, nil
 }
 
 func newMAC(k macKey) (zuc.EIA, error) {
@@ -132,7 +143,10 @@ func (o *macObj) write(p []byte, empty int) error {
 	if o.d.Scribble {
 		scribble(a)
 	}
-	return nil
+	if err := o.after("Write"); err != nil {
+		return err
+	}
+	return o.keep.keep(a, fmt.Sprintf("the argument of Write (call %d)", o.nop), false)
 }
 
 // finish calls Finish(p, nbits) and returns a copy of the tag.
@@ -149,6 +163,15 @@ func (o *macObj) finish(p []byte, nbits int, empty int) ([]byte, error) {
 	if o.d.Scribble {
 		scribble(a)
 		scribble(res)
+	}
+	if err := o.after("Finish"); err != nil {
+		return nil, err
+	}
+	if err := o.keep.keep(res, fmt.Sprintf("the tag slice returned by Finish (call %d)", o.nop), true); err != nil {
+		return nil, err
+	}
+	if err := o.keep.keep(a, fmt.Sprintf("the argument of Finish (call %d)", o.nop), false); err != nil {
+		return nil, err
 	}
 	return tag, nil
 }
@@ -170,7 +193,7 @@ func (o *macObj) finishTooShort(p []byte, nbits int) error {
 	if o.d.Scribble {
 		scribble(a)
 	}
-	return nil
+	return o.after("failed Finish")
 }
 
 // Sum argument flavours
@@ -215,5 +238,29 @@ func (o *macObj) sum(flavour int) ([]byte, error) {
 		scribble(res)
 		scribble(in)
 	}
+	if err := o.after("Sum"); err != nil {
+		return nil, err
+	}
+	// the result belongs to the caller's buffer when that had room, otherwise it is new memory
+	own := cap(in) >= nin+o.k.tagSize()
+	if err := o.keep.keep(res, fmt.Sprintf("the slice returned by Sum(%s) (call %d)", sumInNames[flavour%sumFlavours], o.nop), !own); err != nil {
+		return nil, err
+	}
+	if !own {
+		if err := o.keep.keep(in, fmt.Sprintf("the argument of Sum(%s) (call %d)", sumInNames[flavour%sumFlavours], o.nop), false); err != nil {
+			return nil, err
+		}
+	}
 	return tag, nil
+}
+
+// reset calls Reset.
+func (o *macObj) reset() error {
+	o.m.Reset()
+	return o.after("Reset")
+}
+
+// done is called at the end of a history.
+func (o *macObj) done() error {
+	return o.keep.verify("by the end of the history")
 }
